@@ -210,6 +210,8 @@ func (e *Exec) callFn(fr *frame, st *State, c *ssa.CallCommon, fn *ssa.Function,
 	case "vcIte":
 		c0 := e.asTerm(st, args[0], types.Typ[types.Bool])
 		return tIte(c0, e.asTerm(st, args[1], sig.Params().At(1).Type()), e.asTerm(st, args[2], sig.Params().At(2).Type())), true
+	case "vcMapSeq":
+		return e.mapSeq(st, args[0], sig, where), true
 	case "vcByteStr":
 		return app(SStr, "sbyte", e.asTerm(st, args[0], types.Typ[types.Uint8])), true
 	case "vcFresh":
@@ -577,6 +579,23 @@ func (e *Exec) modularCall(st *State, ct *Contract, sig *types.Signature, args [
 			e.setHeap(st, "G."+g, tStore(arr, recv, rt))
 		}
 	}
+	if g := ct.Attrs["log-count"]; g != "" && len(targs) > 0 {
+		// ghost call log attached to the receiver: a counter and (optionally) the sequence of first arguments
+		if recv, ok := targs[0].(Term); ok {
+			e.ghostSorts[g] = SInt
+			cnt := e.heapComp(st, "G."+g, SInt, arraySort(SInt, SInt))
+			n0 := tSelect(cnt, recv, SInt)
+			if ga := ct.Attrs["log-arg"]; ga != "" && len(targs) > 1 {
+				if a1, ok := targs[1].(Term); ok {
+					ss := arraySort(SInt, a1.Sort)
+					e.ghostSorts[ga] = ss
+					seq := e.heapComp(st, "G."+ga, SInt, arraySort(SInt, ss))
+					e.setHeap(st, "G."+ga, tStore(seq, recv, tStore(tSelect(seq, recv, ss), n0, a1)))
+				}
+			}
+			e.setHeap(st, "G."+g, tStore(cnt, recv, tAdd(n0, tInt(1))))
+		}
+	}
 	all := append(append([]Value{}, targs...), rvals...)
 	for _, cl := range ct.Ensures {
 		if cl.GenFn == "" {
@@ -827,3 +846,44 @@ func (e *Exec) quantifier(fr *frame, st *State, forall bool, f Value, where stri
 
 // recSpecApp: application of a recursive specification function (uninterpreted symbol with a
 // defining axiom); see recspec.go.
+
+// mapSeq: vcMapSeq(func(k int) T {...}) is the sequence F with F[k] == body(k) for every k.  Equal
+// bodies (after renaming the bound variable) denote the same symbol.
+func (e *Exec) mapSeq(st *State, f Value, sig *types.Signature, where string) Value {
+	var fn *ssa.Function
+	var bindings []Value
+	switch x := f.(type) {
+	case *Closure:
+		fn, bindings = x.Fn, x.Bindings
+	case *FuncVal:
+		fn = x.Fn
+	default:
+		e.unsupported("vcMapSeq over a non-literal function at %s", where)
+		return e.freshOf(st, "mapseq", sig.Results())
+	}
+	es := e.ti.sortOf(fn.Signature.Results().At(0).Type())
+	as := arraySort(SInt, es)
+	k := Term{"mk!k", SInt}
+	e.quant++
+	e.spec++
+	cp := st.clone()
+	cp.pc = tTrue
+	rs, out := e.runInline(fn, []Value{k}, bindings, cp, nil)
+	e.spec--
+	e.quant--
+	if out == nil || len(rs) != 1 {
+		e.unsupported("vcMapSeq body has no value at %s", where)
+		return e.freshOf(st, "mapseq", sig.Results())
+	}
+	body := rs[0].(Term)
+	if e.mapSeqs == nil {
+		e.mapSeqs = map[string]Term{}
+	}
+	if t, ok := e.mapSeqs[body.S]; ok {
+		return t
+	}
+	F := e.smt.fresh("mapseq", as)
+	e.mapSeqs[body.S] = F
+	e.smt.axioms = append(e.smt.axioms, fmt.Sprintf("(assert (forall ((mk!k Int)) (! (= (select %s mk!k) %s) :pattern ((select %s mk!k)))))", F.S, body.S, F.S))
+	return F
+}
